@@ -14,6 +14,7 @@ import OutrankModel.Drv.C20
 import OutrankModel.Drv.C08
 import OutrankModel.Drv.C09
 import OutrankModel.Drv.C06
+import OutrankModel.Drv.Construct
 /-!
 Line-protocol driver (DESIGN §2.2): one request per line on stdin, one reply per line on stdout.
 Adds only parsing and printing around the definitions the theorems are about.  Each property contributes one
@@ -36,7 +37,9 @@ def handlers : List (String × Handler) := [
   ("C20", C20Drv.drv),
   ("C08", C08Drv.drv),
   ("C09", C09Drv.drv),
-  ("C06", C06Drv.drv)
+  ("C06", C06Drv.drv),
+  ("C10", ConstructDrv.drv10),
+  ("C11", ConstructDrv.drv11)
 ]
 
 abbrev DState := List (String × Val)
